@@ -81,6 +81,13 @@ class Gen:
         if op == 'abs':
             return f'abs({a()})'
         if op in ('min', 'max'):
+            if r.random() < 0.45:
+                # n-ary form; a literal operand has a narrow value class (no NaN, no zero), which the emitter uses to drop
+                # the NaN / signed-zero guards of the operands that follow
+                self.features.add('nary_minmax')
+                lit = lambda: r.choice(['1.0', '-1.0', '2.0', '0.5', '-3.0', 'fp.round(1)', '0.0', '-0.0'])
+                args = [lit() if r.random() < 0.35 else (self.operand(vars_, ctx) if r.random() < 0.7 else a()) for _ in range(r.choice([3, 3, 4]))]
+                return f'{op}({", ".join(args)})'
             return f'{op}({a()}, {a()})'
         if op == 'sqrt':
             return f'fp.sqrt(abs({a()}))'
@@ -230,6 +237,90 @@ class Gen:
 
 
 # ---------------------------------------------------------------------------------------------
+# corner programs: what the emitter decides from value classes (dropping NaN / signed-zero guards, picking library forms), run on
+# the full cross product of the special operands -- the values a random argument vector rarely lines up
+
+CORNER_VALUES = [0.0, -0.0, float('nan'), float('inf'), float('-inf'), 1.0, -1.0, 2.5]
+
+CORNERS = [
+    ('nary_minmax_literal_first', '''    a = min(1.0, x, y)
+    b = max(-1.0, x, y)
+    c = min(x, 2.0, y)
+    return (a, b, c)
+'''),
+    ('nary_minmax_literal_last', '''    a = max(x, y, xs[0], -0.0)
+    b = min(x, y, 0.0)
+    c = min(2.0, x, 1.0, y)
+    return (a, b, c)
+'''),
+    ('minmax_after_refinement', '''    if x > 0:
+        a = min(x, y, xs[1])
+    else:
+        a = max(x, y, xs[1])
+    if y != y:
+        b = fp.round(0)
+    else:
+        b = min(y, x, -y)
+    return (a, b, x < y)
+'''),
+    ('minmax_literal_zero', '''    a = min(x, 0.0)
+    b = max(x, -0.0)
+    c = min(-0.0, y)
+    return (a, b, max(0.0, y))
+'''),
+    ('signs_of_zero', '''    a = abs(x) * y
+    b = (-x) + y
+    c = x - x
+    return (a, b, fp.fma(x, y, -0.0) + c)
+'''),
+    ('comparisons', '''    a = x < y
+    b = x == y
+    c = x != y
+    return (a, b, c, x >= y, x <= y, x > y)
+'''),
+    ('ifexpr_select', '''    a = x if x == y else y
+    b = min(x, -x)
+    c = max(y, -y)
+    return (a, b, c)
+'''),
+    ('single_precision', '''    with fp.FP32:
+        a = min(fp.round(1.0), fp.round(x), fp.round(y))
+        b = max(fp.round(x), fp.round(-2.0), fp.round(y))
+        c = fp.round(x) * fp.round(y)
+    return (fp.round(a), fp.round(b), fp.round(c))
+'''),
+    ('integer_roundings', '''    a = fp.floor(x)
+    b = fp.ceil(y)
+    c = fp.trunc(x) + fp.sqrt(y)
+    return (a, b, c)
+'''),
+    ('division', '''    a = x / y
+    b = y / x
+    c = fp.round(1.0) / x
+    return (a, b, c)
+'''),
+    ('running_minimum', '''    m = xs[0]
+    for e in xs:
+        m = min(m, e, x)
+    n = xs[0]
+    for e in xs:
+        n = max(e, n)
+    return (m, n, max(m, n, y))
+'''),
+    ('directed_minmax', '''    with F64Z:
+        a = min(x, y, 1.0) + x
+    with F64P:
+        b = max(-1.0, x, y) * y
+    return (a, b)
+'''),
+]
+
+
+def corner_source(body: str) -> str:
+    return HEADER + '@fp.fpy(ctx=fp.FP64)\ndef f(x: fp.Real, y: fp.Real, xs: list[fp.Real]):\n' + body
+
+
+# ---------------------------------------------------------------------------------------------
 # driver emission (type directed)
 
 DRIVER_HELPERS = r'''
@@ -354,12 +445,20 @@ def shard(i: int, n: int, tier: str, seed: int) -> Result:
     refusals = {}
     env = dict(os.environ, ASAN_OPTIONS='abort_on_error=0:detect_leaks=0:halt_on_error=1', UBSAN_OPTIONS='print_stacktrace=1:halt_on_error=1')
     with genrun.Scratch(prefix='vf-c11-') as work:
-        for pi in range(nprog):
+        corners = CORNERS[i::n] if quick else CORNERS[i % len(CORNERS)::n][:2] + CORNERS[i::n]
+        for pi in range(-len(corners), nprog):
             if len(res.violations) >= 20:
                 res.count('stopped_early_violations')
                 break
             g = Gen(rng)
-            src = g.program()
+            if pi < 0:
+                cname, cbody = corners[pi]
+                src = corner_source(cbody)
+                g.features = {'corner:' + cname}
+                g.ret = 'T'
+                res.count('corner_programs')
+            else:
+                src = g.program()
             try:
                 mod = genprog.load_module(src, work, 'c11')
             except Exception as e:
@@ -370,8 +469,11 @@ def shard(i: int, n: int, tier: str, seed: int) -> Result:
             rich = bool(g.features) or g.ret in ('T', 'L', 'LX')
             # inputs and interpreter reference
             inputs = []
-            for _ in range(ninputs):
-                a = [rng.choice(ARG_VALUES), rng.choice(ARG_VALUES), [rng.choice(ARG_VALUES) for _ in range(3)]]
+            if pi < 0:
+                vectors = [[vx, vy, [rng.choice(CORNER_VALUES) for _ in range(3)]] for vx in CORNER_VALUES for vy in CORNER_VALUES]
+            else:
+                vectors = [[rng.choice(ARG_VALUES), rng.choice(ARG_VALUES), [rng.choice(ARG_VALUES) for _ in range(3)]] for _ in range(ninputs)]
+            for a in vectors:
                 r0 = genrun.call(f, a, ctx=fp.FP64, timeout=8.0)
                 if r0[0] == 'ok':
                     inputs.append((a, r0[1]))
